@@ -43,7 +43,7 @@ PALETTE_AB = 'text:<svg xmlns="http://www.w3.org/2000/svg" viewBox="0 0 100 100"
 
 PAINT_FORMATS = gen.PICO
 BRIEF_KEYS = ("defect", "fmt", "warm", "invocation")
-DEFECTS = ["D1", "D1", "D1", "D1g", "D1n", "D2", "D2", "D3", "D3", "D4", "D4", "D5", "D6"]
+DEFECTS = ["D1", "D1", "D1", "D1g", "D1n", "D1n", "D1v", "D2", "D2", "D3", "D3", "D4", "D4", "D5", "D6"]
 
 
 def gen_case(seed, idx):
@@ -53,7 +53,7 @@ def gen_case(seed, idx):
         fmt = r.choice(PAINT_FORMATS)
     elif defect == "D4":
         fmt = r.choice(gen.COLR)
-    elif defect == "D5":
+    elif defect in ("D5", "D1v"):
         fmt = r.choice(["glyf_colr_1", "glyf_colr_0", "glyf"])
     elif defect == "D6":
         fmt = "cbdt"
@@ -130,11 +130,24 @@ def gen_case(seed, idx):
                                 reverse=r.random() < 0.5)),
             axes={"wght": ("Weight", 300)},
         )
+    elif defect == "D1v":
+        # every master of a variable font holds two files that decode to the same codepoint
+        srcs = {}
+        bad = {}
+        for m, c in (("thin", "corpus:vf/thin61.svg"), ("bold", "corpus:vf/bold61.svg")):
+            srcs[m + "/emoji_u62.svg"] = c
+            bad[m + "/emoji_u61.svg"] = c
+            bad[m + "/u61.svg"] = c
+        toml = gen.toml_config(
+            {"output_file": "Font.ttf", "color_format": fmt}, None,
+            masters={"thin": {"style_name": "Thin", "srcs": ["thin/*.svg"], "position": {"wght": 300}},
+                     "bold": {"style_name": "Bold", "srcs": ["bold/*.svg"], "position": {"wght": 700}}},
+            axes={"wght": ("Weight", 300)})
     elif defect == "D6":
         opts["bitmap_resolution"] = r.choice([256, 257, 300])
         opts["use_pngquant"] = False
         opts["use_zopflipng"] = False
-    warm = r.random() < 0.5 and defect not in ("D5",)
+    warm = r.random() < 0.5 and defect not in ("D5", "D1v")
     ops = [{"op": "write", "path": p, "content": c} for p, c in sorted(srcs.items())]
     rs = gen.rng(seed, "c17", idx, "sched")
 
@@ -176,7 +189,13 @@ def gen_case(seed, idx):
         argv = ["config.toml"]
     else:
         argv = argv_for(sorted(list(srcs) + list(bad)), opts)
-    companion = toml is None and defect not in ("D6", "D5") and r.random() < 0.25
+    mixed = defect == "D1n" and r.random() < 0.5
+    if mixed:
+        # the valid sources are listed in a configuration file, the namesake from the other directory is given on the command line
+        ops.append({"op": "write", "path": "config.toml", "content": "text:" + gen.toml_config(opts, sorted(srcs)), "keep": True})
+        extra = sorted(bad)
+        argv = (["config.toml"] + extra) if r.random() < 0.5 else (extra + ["config.toml"])
+    companion = toml is None and not mixed and defect not in ("D6", "D5") and r.random() < 0.25
     if companion:
         # the defective configuration is built together with a healthy one: the invocation must still fail and the
         # defective configuration's font must not be (re)written
